@@ -37,11 +37,27 @@
   Observed while proving (not a violation for well-formed blocks: the values are not valid for their header type):
   with a values object an EMPTY Call-ID / Contact / Content-Length value, `i: a b`, a ten-digit Content-Length are
   rejected by the value parser although the generic scanner (no values object) accepts the line.
-  NOT proved here: typed lines whose single-valued component is suspended mid-value (resumption is C02), Contact `*`
+  SOUNDNESS for ALL inputs (`Sipsp.Proofs.HdrSound`; every buffer ≤ 65,535 bytes, every offset, new header / new or
+  reset list of any capacity; "generic" = no values object, or no typed name at a line start):
+  * `line_sound`, `line_sound_explicit`, `line_ok_iff`, `line_reject`, `line_verdicts`, `line_empty_iff`: ParseHdrLine
+    returns OK iff the text at the offset is a header line of the grammar, and then exactly the reported header
+    (name, trimmed value, type, offset); the "empty" verdict is exactly the empty line; the only other verdicts are
+    MoreBytes and BadChar — an ill-formed line is never silently mis-tokenised;
+  * `block_sound`, `block_ok_iff`, `block_accepts_iff`, `block_empty_iff`, `block_verdicts`, `block_report`,
+    `block_unique`: ParseHeaders says OK at `e` iff `[o, e)` is a non-empty block of the grammar and the list object is
+    the one its lines produce (count = number of lines, stored = the first k lines in order, flags, first-of-type);
+    a block has exactly one reading;
+  * with ANY values object, typed lines included: `line_name_type_sound`, `block_all_report` — every accepted line has a
+    non-empty name, optional SP / HT, the colon; reported name = that text, reported type = its classification; one
+    header per accepted line, in order, with count / stored / flags / first-of-type;
+  * `line_sound_resumed`, `block_sound_resumed`: after a suspension (no values object).
+  NOT proved here: soundness of the VALUE part of the eight typed kinds with a values object (their value grammar is
+  C09 / C10); typed lines whose single-valued component is suspended mid-value (resumption is C02), Contact `*`
   inside a header line, general rejection results for typed values.
 -/
 import Sipsp.Proofs.HdrSpec
 import Sipsp.Proofs.HdrTyped
+import Sipsp.Proofs.HdrSound
 
 namespace Sipsp.C07
 open Sipsp
@@ -182,5 +198,74 @@ theorem generic_with_values : type_of% @Sipsp.ht_line_gen := @Sipsp.ht_line_gen
 /-- **ParseHeaders on a well-formed block with a values object**: one header per line, in order (generic and typed
     lines mixed), the values object as left by the typed lines, then the end of the block -/
 theorem typed_block : type_of% @Sipsp.ht_parseHeaders_block := @Sipsp.ht_parseHeaders_block
+
+/-! ### soundness for ALL inputs: accepted => a line / block of the grammar (proved in `Sipsp.Proofs.HdrSound`) -/
+
+/-- **(1) soundness of an accepted line**: whatever ParseHdrLine accepts (OK) is a header line of the grammar, and the
+    header reported is exactly the one the grammar denotes -/
+theorem line_sound : type_of% @Sipsp.hs_line_sound := @Sipsp.hs_line_sound
+
+/-- the same with the positions spelled out: name `[o, n)` (non-empty), spaces / tabs up to the colon at `c`, linear
+    white space, then either a value `[v, ve)` of tokens and linear white space or nothing, the line end at `p`, and
+    a byte after the line end that is not SP / HT (the look-ahead that tells the end of the header from a fold) -/
+theorem line_sound_explicit : type_of% @Sipsp.hs_line_sound_explicit := @Sipsp.hs_line_sound_explicit
+
+/-- **accepted iff of the grammar** (line level, with `parseHdrLine_spec` for the other direction) -/
+theorem line_ok_iff : type_of% @Sipsp.hs_line_ok_iff := @Sipsp.hs_line_ok_iff
+
+/-- a rejected or suspended line is not a line of the grammar (from completeness: the scanner is a function) -/
+theorem line_reject : type_of% @Sipsp.hs_line_reject := @Sipsp.hs_line_reject
+
+/-- **every other verdict is "more bytes" or the error "bad character"** -/
+theorem line_verdicts : type_of% @Sipsp.hs_line_verdicts := @Sipsp.hs_line_verdicts
+
+theorem line_empty_iff : type_of% @Sipsp.hs_line_empty_iff := @Sipsp.hs_line_empty_iff
+
+/-- **(2) soundness of an accepted block**: if ParseHeaders ends with OK (or "empty": no header at all), the text
+    `[o, e)` is a block of the grammar — header lines one after the other, then the empty line — and the list object
+    is exactly what accepting the headers denoted by those lines, in order, produces -/
+theorem block_sound : type_of% @Sipsp.hs_block_sound := @Sipsp.hs_block_sound
+
+/-- **(3) ParseHeaders accepts iff the text is a block of the grammar** (new list object of any capacity, generic
+    treatment): the result is OK at `e` with list object `hl'` iff `[o, e)` is a block with at least one header line
+    and `hl'` is the list object those headers produce. An ill-formed block is never accepted, a well-formed one never
+    rejected, and what is reported is determined by the grammar. -/
+theorem block_ok_iff : type_of% @Sipsp.hs_block_ok_iff := @Sipsp.hs_block_ok_iff
+
+/-- the same without the list object: ParseHeaders says OK at `e` iff `[o, e)` is a non-empty block of the grammar -/
+theorem block_accepts_iff : type_of% @Sipsp.hs_block_accepts_iff := @Sipsp.hs_block_accepts_iff
+
+/-- "empty" (no header at all): exactly when the text at `o` is the empty line -/
+theorem block_empty_iff : type_of% @Sipsp.hs_block_empty_iff := @Sipsp.hs_block_empty_iff
+
+/-- the verdicts of ParseHeaders (generic treatment): OK, "empty", "more bytes", or the error "bad character" -/
+theorem block_verdicts : type_of% @Sipsp.hs_block_verdicts := @Sipsp.hs_block_verdicts
+
+/-- **what an accepted block reports** (new list object of capacity `k`, generic treatment): the headers of the block
+    of the grammar, counted / stored / flagged / indexed as `hs_new_report` says -/
+theorem block_report : type_of% @Sipsp.hs_block_report := @Sipsp.hs_block_report
+
+/-- a block of the grammar at `o` is unique: its end and the headers it denotes are determined by the text -/
+theorem block_unique : type_of% @Sipsp.hs_block_unique := @Sipsp.hs_block_unique
+
+/-- **name and type of ANY accepted line, with or without a values object, typed or not**: if ParseHdrLine says OK
+    for a new header object, the text at `o` starts with a non-empty name `[o, n)` (no SP / HT / CR / LF / colon in
+    it), spaces / tabs, and the colon; the reported name is `[o, n)`, the reported type is the classification of
+    exactly that text, and the header is finished -/
+theorem line_name_type_sound : type_of% @Sipsp.hs_line_name_type_sound := @Sipsp.hs_line_name_type_sound
+
+/-- **what ANY accepted block reports** (new list object of capacity `k`, with or without a values object, typed
+    lines included): a chain of lines whose reported names and types are right (`HsChain`), counted / stored / flagged
+    / indexed as `hs_new_report` says -/
+theorem block_all_report : type_of% @Sipsp.hs_block_all_report := @Sipsp.hs_block_all_report
+
+/-- a line accepted by a RESUMED call — the first call on the prefix `b` asked for more bytes, the second call
+    continues at the returned offset with the returned objects on the longer buffer — is a line of the grammar in
+    the longer buffer, starting at the ORIGINAL offset, and the header reported is the one it denotes -/
+theorem line_sound_resumed : type_of% @Sipsp.hs_line_resumed_sound := @Sipsp.hs_line_resumed_sound
+
+/-- the same for ParseHeaders: a block accepted by a resumed call is a block of the grammar in the longer buffer
+    from the original offset, and the list object is the one its headers produce -/
+theorem block_sound_resumed : type_of% @Sipsp.hs_block_resumed_sound := @Sipsp.hs_block_resumed_sound
 
 end Sipsp.C07
